@@ -29,9 +29,10 @@ const (
 	kConc          // UpdateConcurrency
 	kCount         // CountWithTime(now, pass)
 	kValues        // Values(now)
+	kMaxConc       // MaxConcurrency()
 )
 
-var kindName = []string{"add", "rt", "conc", "count", "values"}
+var kindName = []string{"add", "rt", "conc", "count", "values", "maxconc"}
 
 type program struct {
 	onePreempt bool // systematic exploration with one preemption even in the thorough tier
@@ -69,6 +70,8 @@ func execute(c *hx.Case, p program, choose func(enabled []int, last int) int, ti
 	for i := 0; i < p.pre; i++ {
 		arr.AddCount(base.MetricEventPass, 1)
 		ops = append(ops, &op{g: -1, kind: kAdd, ts: hx.C.Ms(), amt: 1, c0: hx.C.Ms(), c1: hx.C.Ms(), s0: -1, s1: -1})
+		arr.UpdateConcurrency(9) // the pre-filled bucket also carries a peak concurrency
+		ops = append(ops, &op{g: -1, kind: kConc, ts: hx.C.Ms(), amt: 9, c0: hx.C.Ms(), c1: hx.C.Ms(), s0: -1, s1: -1})
 	}
 	hx.C.AddMs(p.preGap)
 	stepNo := 0
@@ -86,7 +89,10 @@ func execute(c *hx.Case, p program, choose func(enabled []int, last int) int, ti
 					o.amt = int64(3 + g)
 					arr.AddCount(base.MetricEventRt, o.amt)
 				case kConc:
+					o.amt = int64(2 + g)
 					arr.UpdateConcurrency(int32(2 + g))
+				case kMaxConc:
+					o.result = int64(arr.MaxConcurrency())
 				case kCount:
 					o.result = arr.CountWithTime(o.ts, base.MetricEventPass)
 				case kValues:
@@ -167,10 +173,13 @@ func execute(c *hx.Case, p program, choose func(enabled []int, last int) int, ti
 	}
 	win := func(now uint64) (lo, hi uint64) { st := now - now%bl; hi = st + bl; lo = hi - iv; return }
 	stalled := func(o *op) bool { return o.c1-o.c0 >= bl }
-	anyStalledAdd := false
+	anyStalledAdd, anyStalledConc := false, false
 	for _, o := range ops {
 		if o.kind == kAdd && stalled(o) {
 			anyStalledAdd = true
+		}
+		if o.kind == kConc && stalled(o) {
+			anyStalledConc = true
 		}
 	}
 	overlap := false // some recorder overlapped (in steps) a reset performed by another task
@@ -224,6 +233,29 @@ func execute(c *hx.Case, p program, choose func(enabled []int, last int) int, ti
 			}
 			if o.result > upper {
 				return fmt.Sprintf("(a) reader g%d at +%d (not stalled) got %d, only %d recorded for its window [+%d,+%d): %s", o.g, o.ts-base0, o.result, upper, int64(lo)-int64(base0), hi-base0, dump()), overlapSeen
+			}
+		}
+		if o.kind == kMaxConc && !anyStalledConc {
+			var upper int64
+			for _, a := range ops {
+				if a.kind != kConc || a.s0 > o.s1 {
+					continue
+				}
+				in := a.ts >= lo && a.ts < hi
+				if !in && a.ts < lo { // still in flight when another task's reset began: may surface in the new bucket
+					for _, r := range resets {
+						if r.g != a.g && a.s0 <= r.s0 && r.s0 <= a.s1 {
+							in = true
+							break
+						}
+					}
+				}
+				if in && a.amt > upper {
+					upper = a.amt
+				}
+			}
+			if o.result > upper {
+				return fmt.Sprintf("(a) MaxConcurrency read by g%d at +%d (not stalled) is %d, the largest value recorded for its window [+%d,+%d) is %d: %s", o.g, o.ts-base0, o.result, int64(lo)-int64(base0), hi-base0, upper, dump()), overlapSeen
 			}
 		}
 		if o.kind == kValues {
@@ -285,7 +317,7 @@ func drawProgram(t *rapid.T) program {
 		nops := rapid.IntRange(1, 2).Draw(t, "nops")
 		var ks []int
 		for i := 0; i < nops; i++ {
-			ks = append(ks, rapid.SampledFrom([]int{kAdd, kAdd, kAdd, kCount, kCount, kCount, kValues, kRt, kConc}).Draw(t, "kind"))
+			ks = append(ks, rapid.SampledFrom([]int{kAdd, kAdd, kAdd, kCount, kCount, kCount, kValues, kRt, kConc, kConc, kMaxConc}).Draw(t, "kind"))
 		}
 		p.tasks = append(p.tasks, ks)
 	}
@@ -344,6 +376,9 @@ func basePrograms() []program {
 			ps = append(ps, program{n: n, phase: 9, pre: pre, preGap: 0, tasks: [][]int{{kAdd}, {kCount}}, twoPreempt: true})
 		}
 	}
+	// a slot that kept its data through a whole idle interval, a recorder in the last millisecond before the boundary and a
+	// reader of the peak concurrency just after it (two preemptions)
+	ps = append(ps, program{n: 2, phase: 9, pre: 1, preGap: 2 * bl, tasks: [][]int{{kAdd}, {kMaxConc}}, twoPreempt: true})
 	// an array still in its first lap (three buckets, created one bucket after an interval boundary, nothing pre-filled):
 	// slots in front of the creation slot have never been written; readers on both sides of a tick overlap
 	for _, tasks := range [][][]int{
